@@ -156,6 +156,17 @@ def _gen_common(rng, tier, routes, **treekw):
         if single_ok and rng.random() < 0.4:
             tree = {"name": "img.bin", "single": True, "dirs": [], "layout": "giant-pieces", "files": [big]}
         auto = False
+    elif c < 0.018 and not treekw.get("layout"):
+        # 8 / 16 MiB pieces whose boundary-crossing piece still lacks many MiB when a file ends, followed by a file of
+        # several MiB (scratch buffers, chunked reads)
+        exp = rng.choice([23, 23, 24])
+        pl = 2 ** exp
+        mib = 1 << 20
+        tree = {"name": "bigstraddle", "single": False, "dirs": [], "layout": "big-straddle", "links": [],
+                "files": [["a.bin", rng.choice([1, 2, 3]) * mib + rng.choice([0, 5, 4097]), rng.randrange(1 << 30)],
+                          ["b.bin", rng.choice([5, 7, 9]) * mib + rng.choice([0, 1, 12345]), rng.randrange(1 << 30)],
+                          ["c.bin", rng.choice([1, 6]) * mib + 7, rng.randrange(1 << 30)]]}
+        auto = False
     elif c < 0.024:
         # payloads whose TOTAL crosses the first automatic piece-length threshold (16 384 000 bytes) while every single
         # file stays far below it; piece length left to the tool
